@@ -15,6 +15,7 @@ import (
 type ReplayCase struct {
 	Harness string                 `json:"harness"`
 	Tier    string                 `json:"tier"`
+	Prop    string                 `json:"prop"`
 	Model   map[string]replayValue `json:"model"`
 }
 
@@ -33,8 +34,8 @@ type ReplayResult struct {
 	Panic    string   `json:"panic"`
 }
 
-func MakeCase(harness, tier string, m Model) ReplayCase {
-	c := ReplayCase{Harness: harness, Tier: tier, Model: map[string]replayValue{}}
+func MakeCase(harness, tier, prop string, m Model) ReplayCase {
+	c := ReplayCase{Harness: harness, Tier: tier, Prop: prop, Model: map[string]replayValue{}}
 	for k, v := range m {
 		switch a := v.(type) {
 		case string:
